@@ -2,6 +2,7 @@ package server
 
 import (
 	"errors"
+	"github.com/tidwall/geojson"
 	"math"
 	"os"
 	"strconv"
@@ -126,7 +127,16 @@ func (s *Server) aofshrink() {
 								values = append(values, "ex")
 								values = append(values, strconv.FormatFloat(ttl, 'f', -1, 64))
 							}
-							if objIsSpatial(o.Geo()) {
+							if rect, ok := o.Geo().(*geojson.Rect); ok {
+								// SET ... BOUNDS: as a polygon it would come back as
+								// a different kind of object
+								r := rect.Base()
+								values = append(values, "bounds",
+									strconv.FormatFloat(r.Min.Y, 'f', -1, 64),
+									strconv.FormatFloat(r.Min.X, 'f', -1, 64),
+									strconv.FormatFloat(r.Max.Y, 'f', -1, 64),
+									strconv.FormatFloat(r.Max.X, 'f', -1, 64))
+							} else if objIsSpatial(o.Geo()) {
 								values = append(values, "object")
 								values = append(values, string(o.Geo().AppendJSON(nil)))
 							} else {
